@@ -69,9 +69,10 @@ def cmd_contract(name, kind):
         raises=[("ValueError", f"not {ACCEPT}"), ("InvalidOperationError", f"{GRID_OK} and not {FITS}"),
                 ("KeyError", f"not {IN_GRID}")],
         ensures=[
+            ("selection-defined", "define_selection(n_rows, n_columns, wells)", ["C13", "C10"]),
             ("command", f"result == evo_cmd('{kind}', wells, labware_position, volume, liquid_class, tips, arm, selection_string())", ["C13", "C10"]),
-            ("selection-arguments", "selection_matches(n_rows, n_columns, wells)", ["C13"]),
         ],
+        returns=f"evo_cmd('{kind}', wells, labware_position, volume, liquid_class, tips, arm, evo_sel_spec(n_rows, n_columns, wells))",
         policy={SELF: selection_summary, RSC: "contract", I2T: "contract"},
     )
 
@@ -81,3 +82,89 @@ def install(world):
                              raises=[("ValueError", "two_columns_selected(selection)")], note="assumed summary (validated by the bounded monitor)"))
     register(world, cmd_contract("evo_aspirate", "Aspirate")).shards = 6
     register(world, cmd_contract("evo_dispense", "Dispense")).shards = 6
+
+
+# ----------------------------------------------------------------------------- evo_wash and the worklist methods
+
+WASH = CMD + "evo_wash"
+EW = "robotools.evotools.worklist.EvoWorklist."
+LWR = "robotools.liquidhandling.labware.Labware."
+INT_PARAMS = [("waste_delay", 0, 1000), ("cleaner_delay", 0, 1000), ("airgap", 0, 100), ("airgap_speed", 1, 1000), ("retract_speed", 1, 100)]
+
+
+def wash_args(ex, ntips=1, **over):
+    env = {"tips": SeqV.of("list", [tip_of(ex, f"tip{i}", "int" if i % 2 == 0 else "Tip") for i in range(ntips)]),
+           "waste_location": SeqV.of("tuple", [sint("waste_grid"), sint("waste_site")]),
+           "cleaner_location": SeqV.of("tuple", [sint("cleaner_grid"), sint("cleaner_site")]), "arm": sint("arm"),
+           "waste_vol": sreal("waste_vol"), "waste_delay": sint("waste_delay"), "cleaner_vol": sreal("cleaner_vol"),
+           "cleaner_delay": sint("cleaner_delay"), "airgap": sint("airgap"), "airgap_speed": sint("airgap_speed"),
+           "retract_speed": sint("retract_speed"), "fastwash": sint("fastwash"), "low_volume": sint("low_volume")}
+    env.update(over)
+    return env
+
+
+LOC_OK = ("(1 <= waste_location[0] and waste_location[0] <= 67 and 1 <= waste_location[1] and waste_location[1] <= 128 and "
+          "1 <= cleaner_location[0] and cleaner_location[0] <= 67 and 1 <= cleaner_location[1] and cleaner_location[1] <= 128)")
+RANGES_OK = " and ".join(f"({lo} <= {n} and {n} <= {hi})" for n, lo, hi in INT_PARAMS)
+WASH_OK = (f"(tip_collection_ok(tips) and tips_distinct(tips) and {LOC_OK} and (arm == 0 or arm == 1) and 0 <= waste_vol and waste_vol <= 100 and "
+           f"0 <= cleaner_vol and cleaner_vol <= 100 and {RANGES_OK} and (fastwash == 0 or fastwash == 1) and (low_volume == 0 or low_volume == 1))")
+WASH_CALL = "tips, waste_location, cleaner_location, arm, waste_vol, waste_delay, cleaner_vol, cleaner_delay, airgap, airgap_speed, retract_speed, fastwash, low_volume"
+
+
+_inst_c13 = install
+
+
+def install(world):  # noqa: F811
+    _inst_c13(world)
+    register(world, Contract(
+        func=WASH, serves=["C13", "C10"],
+        scenarios=[Scenario("1 tip (int)", lambda ex: wash_args(ex, 1)), Scenario("2 tips (int, Tip)", lambda ex: wash_args(ex, 2)),
+                   Scenario("waste_vol:int", lambda ex: wash_args(ex, 1, waste_vol=sint("waste_vol")))],
+        raises=[("ValueError", f"not {WASH_OK}")],
+        returns=f"evo_wash_cmd({WASH_CALL})",
+        policy={I2T: "contract"},
+    ))
+
+    def wl_wash(ex):
+        env = wash_args(ex, 1)
+        env["self"] = sym_worklist(ex, "EvoWorklist")
+        return env
+
+    register(world, Contract(
+        func=EW + "evo_wash", serves=["C13"],
+        scenarios=[Scenario("1 tip", wl_wash)],
+        raises=[("ValueError", f"not {WASH_OK}")],
+        ensures=[("appended", f"same(records(self), records(old_self) + [evo_wash_cmd({WASH_CALL})])", ["C13"])],
+        exc_ensures=[("nothing-appended", "same(records(self), records(old_self))", ["C13"])],
+        policy={WASH: "contract"},
+    ))
+
+    def wl_cmd(nwells):
+        def make(ex):
+            wl = sym_worklist(ex, "EvoWorklist")
+            lw = sym_labware(ex, "L", False)
+            wells = []
+            for i in range(nwells):
+                r, c = z3.Int(f"w{i}_r"), z3.Int(f"w{i}_c")
+                ex.p.assume(z3.And(r >= 0, r < 26, c >= 1, c <= 99))
+                wells.append(WellV(r, c))
+            return {"self": wl, "labware": lw, "wells": SeqV.of("list", wells), "labware_position": SeqV.of("tuple", [sint("grid"), sint("site")]),
+                    "tips": SeqV.of("list", [tip_of(ex, f"tip{i}", "int") for i in range(nwells)]),
+                    "volumes": SeqV.of("list", [sreal(f"vol{i}") for i in range(nwells)]), "liquid_class": sstr("liquid_class"),
+                    "arm": sint("arm"), "label": sstr("label")}
+        return Scenario(f"{nwells} well(s), per-tip volumes", make, requires=["printable(liquid_class)", "printable(label)", "length(labware.column_ids) <= 99"])
+
+    for name, kind, lwm, op in (("evo_aspirate", "Aspirate", "remove", "vol_minus"), ("evo_dispense", "Dispense", "add", "vol_plus")):
+        register(world, Contract(
+            func=EW + name, serves=["C13", "C03"],
+            scenarios=[wl_cmd(1), wl_cmd(2)],
+            raises=[("ValueError", None), ("InvalidOperationError", None), ("KeyError", None), ("AssertionError", None),
+                    ("VolumeUnderflowError", None), ("VolumeOverflowError", None)],
+            ensures=[
+                ("command-appended", f"same(records(self), records(old_self) + comment_records(label) + [evo_cmd('{kind}', wells, labware_position, volumes, liquid_class, tips, arm, "
+                                     "evo_sel_spec(length(labware.row_ids), length(labware.column_ids), wells))])", ["C13"]),
+                ("tracking-agrees", f"same(labware._volumes, {op}(old_labware._volumes, contrib(labware, wells, volumes)))", ["C13"]),
+            ],
+            exc_ensures=[("no-command-on-abort", "is_prefix(records(self), records(old_self) + comment_records(label))", ["C13", "C03"])],
+            policy={LWR + lwm: "contract", CMD + name: "contract"},
+        ))
